@@ -149,13 +149,21 @@ func VerifC12IdentityParams() {
 			return
 		}
 	}
-	ps2 := ps
+	// the second copy is built separately: no pointer is shared between the two documents
+	pnB := vQueryParam("n", n.typ, n.format, n.required, n.validations())
+	if vBool2("multipleOf") {
+		m := vF64("n.multipleOf")
+		vAssume(m > 0)
+		m1, m2 := m, m
+		pn.MultipleOf, pnB.MultipleOf = &m1, &m2
+	}
+	ps2 := vQueryParam("s", "string", s.format, s.required, s.validations())
 	if len(ps.Enum) == 2 {
 		ps2.Enum = []interface{}{ps.Enum[1], ps.Enum[0]}
 		vCover("enum-permuted")
 	}
 	s1 := vSpecWithParams(pn, ps, pn2, pa)
-	s2 := vSpecWithParams(pa, pn2, ps2, pn)
+	s2 := vSpecWithParams(pa, pn2, ps2, pnB)
 	// path-level shared parameter on both sides
 	for _, sw := range []*spec.Swagger{s1, s2} {
 		pi := sw.Paths.Paths["/a"]
@@ -212,4 +220,51 @@ func VerifC12IdentityArrayParam() {
 	diffs, _ := Compare(mk(), mk())
 	vObserve("ndiffs", len(diffs))
 	vAssert(len(diffs) == 0, "a spec with an array parameter and a response header differs from itself")
+}
+
+
+func init() { vRegister("VerifC12IdentityRefNames", VerifC12IdentityRefNames) }
+
+// C12 identity/totality for definition names that are not plain identifiers: blanks, non-ASCII
+// letters, punctuation - referenced from a response, a body, a property and array items
+func VerifC12IdentityRefNames() {
+	name := []string{"X", "Book Receipt", "B\u00fccher", "Page\u00abB\u00bb", "a.b"}[vChoice("name", 5)] // (a name with '/' would need ~1 escaping in the $ref)
+	where := vChoice("where", 4)
+	build := func() *spec.Swagger {
+		leaf := spec.Schema{}
+		leaf.Type = spec.StringOrArray{"object"}
+		leaf.Properties = map[string]spec.Schema{"v": *spec.StringProperty()}
+		ref := spec.RefSchema("#/definitions/" + name)
+		var used *spec.Schema
+		switch where {
+		case 0, 1:
+			used = ref
+		case 2:
+			o := spec.Schema{}
+			o.Type = spec.StringOrArray{"object"}
+			o.Properties = map[string]spec.Schema{"p": *ref}
+			used = &o
+		default:
+			used = spec.ArrayProperty(ref)
+		}
+		op := &spec.Operation{}
+		if where == 1 {
+			op.Parameters = []spec.Parameter{vBodyParam(used)}
+		}
+		op.Responses = &spec.Responses{}
+		r := spec.Response{}
+		r.Description = "ok"
+		if where != 1 {
+			r.Schema = used
+		}
+		op.Responses.StatusCodeResponses = map[int]spec.Response{200: r}
+		sw := vSpecWithOp("/a", op)
+		sw.Definitions = spec.Definitions{name: leaf}
+		return sw
+	}
+	vCover("built")
+	diffs, err := Compare(build(), build())
+	vAssert(err == nil, "Compare failed on identical specs")
+	vObserve("ndiffs", len(diffs))
+	vAssert(len(diffs) == 0, "a spec whose definition names are not plain identifiers differs from itself")
 }
